@@ -602,8 +602,12 @@ namespace DFS
       return std::vector<int>{2, 1};
   }
 
-  std::vector<DFS::ImageFileFormat> make_candidate_list(const std::string& name)
+  std::vector<DFS::ImageFileFormat> make_candidate_list(const std::string& file_name)
   {
+    // The name of a compressed image (for example foo.ssd.gz) tells
+    // us just as much as the name of the uncompressed image would.
+    std::string name(file_name);
+    DFS::stringutil::remove_suffix(&name, ".gz");
     std::optional<DFS::Encoding> encoding_hint;
     std::optional<bool> interleaving_hint;
     std::optional<int> sides_hint;
